@@ -33,6 +33,11 @@ SEEDS = [
     "class Foo; multiclass M { def _x; } def anonymous_1 : Foo; defm : M; def : Foo { int n = 1; } def user { Foo f = anonymous_1; list<Foo> l = [anonymous_1, anonymous_0]; }",
     "class Reg; multiclass MC { def _lo : Reg; } defm D : MC; class Use<int n, Reg r = D_lo>; def X : Use<1, D_lo> { Reg q = D_lo; }",
     "def { int w = 1; } def { int w = 2; } defvar a = anonymous_0; defvar b = anonymous_1.w; def anonymous_0; defvar c = anonymous_0;",
+    # named template arguments (the name is a reference to the parameter), bit-range lets, a defm inside a defset, re-declared fields
+    "class A<int x, int y = 0> { bits<4> f; int g = x; } def d : A<x = 1> { let f{1-0} = 1; } def e : A<y = 2, x = 3>; def h : A<1, y = 2> { let f{3} = y; }",
+    "class A<int x>; multiclass M<int q> { def _m : A<x = q>; } defset list<A> s = { defm in_s : M<q = 1>; def plain : A<x = 2>; } defvar v = s;",
+    "class A { int x = 0; int y = x; } class B : A { int x = 1; int z = x; } def d : B { int x = 2; int w = x; let y = x; }",
+    "class A; def \"a\" \"b\" : A; def \"c\" : A; def \"\" : A; def \"a\" # \"b\" : A; def user { A r = c; }",
 ]
 
 
@@ -240,6 +245,15 @@ def run(ck):
                 continue
             a, b, t = cur[0]
             tgt = tok_at.get((g[0], g[1], g[2]))
+            if tgt is None:
+                # a record declared with a string name (`def "c" : A;`): the target is the name inside the literal - the same
+                # text, but not an identifier token (listed finding; anything else stays a violation of its own)
+                ftext = files.get(g[0], "").encode("utf-8")
+                inner = ftext[g[1]:g[2]].decode("utf-8", "replace")
+                if inner == t and g[1] > 0 and ftext[g[1] - 1:g[1]] == b'"' and ftext[g[2]:g[2] + 1] == b'"':
+                    ck.fail("C06|target-in-string-name", "go-to-definition on a use of a record declared with a string name lands on the name inside the string literal, "
+                            "which is not an identifier token (its text equals the identifier)", case, g, t)
+                    tgt = t      # the remaining clauses are still checked for this position
             if tgt is None or tgt != t:
                 ck.fail(sig, "definition target is not an identifier with the text under the cursor (%r vs %r)" % (tgt, t), case, g, t)
                 continue
